@@ -748,7 +748,9 @@ def _expand_registry(repo, template_text):
         if not vm:
             raise ExtractError(f'lost anchor: {name} is not in Cargo.lock')
         import glob
-        cands = sorted(glob.glob(os.path.join(os.path.expanduser('~'), '.cargo', 'registry', 'src', '*', f'{name}-{vm.group(1)}')))
+        homes = [os.environ['CARGO_HOME']] if os.environ.get('CARGO_HOME') else []
+        homes += [os.path.join(os.path.expanduser('~'), '.cargo'), '/root/.cargo']
+        cands = sorted({c for h in homes for c in glob.glob(os.path.join(h, 'registry', 'src', '*', f'{name}-{vm.group(1)}'))})
         if not cands:
             raise ExtractError(f'lost anchor: source of {name} {vm.group(1)} is not in the cargo registry')
         return cands[0]
